@@ -85,8 +85,8 @@ func relinBounds(p bgv.Parameters) []*big.Int {
 
 func (w *world) tBig() *big.Int { return new(big.Int).SetUint64(w.t) }
 
-func bAdd(a, b *big.Int) *big.Int { return new(big.Int).Add(a, b) }
-func bMul(a, b *big.Int) *big.Int { return new(big.Int).Mul(a, b) }
+func bAdd(a, b *big.Int) *big.Int        { return new(big.Int).Add(a, b) }
+func bMul(a, b *big.Int) *big.Int        { return new(big.Int).Mul(a, b) }
 func bMulI(a *big.Int, k int64) *big.Int { return new(big.Int).Mul(a, big.NewInt(k)) }
 
 // tensorBound: N*Ba*Bb.
